@@ -294,6 +294,14 @@ func safeImpl(c *Component, cs Case) (res ImplResult, panicked bool) {
 		return ImplResult{Out: "suspect-after-memory-runaway", NoModel: true}, false
 	case <-timer.C:
 		atomic.AddInt64(&hungCases, 1)
+		if os.Getenv("VERIF_NO_ISOLATE") == "" {
+			// not yet a verdict: on a loaded machine a case can exceed the bound without hanging. It is re-run ALONE in a
+			// child process by the isolating pass and reported as a hang only if it does not finish there either.
+			suspectMu.Lock()
+			suspects = append(suspects, cs)
+			suspectMu.Unlock()
+			return ImplResult{Out: "suspect-after-timeout", NoModel: true}, false
+		}
 		res = ImplResult{Out: "timeout", Key: "timeout", NoModel: true}
 		res.Fails = append(res.Fails, OracleFail{Property: "*", Clause: "hang-in-" + c.Name,
 			Detail: fmt.Sprintf("the case did not return within %s (the same component needs at most a few seconds per case on the unchanged tree)", caseTimeout)})
@@ -405,6 +413,10 @@ func runDriverParallel(driver string, lines []string) ([]string, error) {
 
 const maxKept = 25
 
+// maxChunk: cases evaluated (implementation, model, comparison) at a time; the outputs of a chunk are dropped before the
+// next one starts (component blocks at thorough scope held 57 GB for 17.8M cases in one chunk and was killed)
+const maxChunk = 400000
+
 // RunComponent generates, executes and compares.
 func RunComponent(c *Component, tier string, seed uint64, driver string, corpus []Case) *Result {
 	t0 := time.Now()
@@ -439,6 +451,9 @@ func RunComponent(c *Component, tier string, seed uint64, driver string, corpus 
 	if budgetS > 0 && chunk > 50000 {
 		chunk = 50000
 	}
+	if chunk > maxChunk { // memory: implementation outputs and model answers are held per chunk only
+		chunk = maxChunk
+	}
 	done := 0
 	for done < len(all) || (done == 0 && len(all) == 0) {
 		end := done + chunk
@@ -469,7 +484,12 @@ func RunComponent(c *Component, tier string, seed uint64, driver string, corpus 
 	res.Suspects = append(res.Suspects, suspects...)
 	suspectMu.Unlock()
 	if len(res.Suspects) > 0 {
-		res.Notes = append(res.Notes, fmt.Sprintf("memory runaway: the process exceeded %d GB; %d cases in flight are re-run alone, the cases after them were skipped", memLimitBytes()>>30, len(res.Suspects)))
+		if atomic.LoadInt32(&runawayFlag) != 0 {
+			res.Extra["runaway"] = "1"
+			res.Notes = append(res.Notes, fmt.Sprintf("memory runaway: the process exceeded %d GB; %d cases in flight are re-run alone, the cases after them were skipped", memLimitBytes()>>30, len(res.Suspects)))
+		} else {
+			res.Notes = append(res.Notes, fmt.Sprintf("%d cases exceeded the per-case bound of %s and are re-run alone", len(res.Suspects), caseTimeout))
+		}
 	}
 	res.WallS = time.Since(t0).Seconds()
 	return res
